@@ -575,7 +575,35 @@ def _box_into_vec(ex, callee, argv):
     return Agg([deep(x) for x in arr.f], name="Vec")
 
 
+def _minmax(ex, callee, argv):
+    a, b_ = argv[0], argv[1]
+    while isinstance(a, Ref):
+        a = ex.load(a)
+    while isinstance(b_, Ref):
+        b_ = ex.load(b_)
+    lt = ex.binop("Lt", a, b_)
+    want_min = callee.endswith("min")
+    if lt.conc():
+        return (a if lt.v else b_) if want_min else (b_ if lt.v else a)
+    c = ex.dom.boolterm(lt)
+    return ex.ite(c, a, b_) if want_min else ex.ite(c, b_, a)
+
+
+def _saturating(ex, callee, argv):
+    a, b_ = argv
+    op = "Sub" if "sub" in callee else "Add"
+    r = ex.binop(op + "WithOverflow", a, b_)
+    val, ov = r.f
+    ty = a.ty
+    lim = Sc(0, ty) if op == "Sub" else Sc((1 << INT_W[ty]) - 1, ty)
+    if ov.conc():
+        return lim if ov.v else val
+    return ex.ite(ex.dom.boolterm(ov), lim, val)
+
+
 TABLE = [
+    (re.compile(r"^(<\w+ as Ord>::(min|max)|(std|core)::cmp::(min|max))$"), _minmax),
+    (re.compile(r"^core::num::<impl \w+>::saturating_(sub|add)$"), _saturating),
     (re.compile(r"^Box::new_uninit$"), _box_new_uninit),
     (re.compile(r"^std::boxed::box_assume_init_into_vec_unsafe$"), _box_into_vec),
     (re.compile(r"^(core::slice::<impl \[\w+\]>|Vec|core::str::<impl str>)::is_empty$"), _is_empty),
